@@ -134,6 +134,32 @@ type Store struct {
 	Actor  string // label attached to logged calls (see As)
 	// Gate, when set, is called before every call takes effect (schedule control).
 	Gate func(actor, op string)
+	// Backing, when set, is a real Metastore implementation (over a semantic fake of its
+	// database) that holds the rows: Load / LoadLatest / Store are delegated to it after gate,
+	// logging and fault injection. The rows kept here then are a SHADOW (deep copies taken when
+	// the insert was acknowledged) used to detect overwritten / modified / lost rows.
+	Backing StoreBacking
+	// Overwritten lists acknowledged Stores of an (id, created) that was already stored.
+	Overwritten []string
+}
+
+// StoreBacking is a real metastore plus raw access to its database.
+type StoreBacking interface {
+	Metastore() appencryption.Metastore
+	// RawRows parses what the database holds, independently of the metastore's own Load.
+	RawRows() (RefSnapshot, error)
+	// RevokeRow flags a row revoked the way an operator would (an UPDATE on the database).
+	RevokeRow(id string, created int64) error
+}
+
+func cloneEKR(e *appencryption.EnvelopeKeyRecord) *appencryption.EnvelopeKeyRecord {
+	cp := *e
+	cp.EncryptedKey = append([]byte(nil), e.EncryptedKey...)
+	if e.ParentKeyMeta != nil {
+		pm := *e.ParentKeyMeta
+		cp.ParentKeyMeta = &pm
+	}
+	return &cp
 }
 
 // NewStore returns an empty store logging into log.
@@ -151,13 +177,13 @@ type actorStore struct {
 }
 
 func (a actorStore) Load(ctx context.Context, id string, created int64) (*appencryption.EnvelopeKeyRecord, error) {
-	return a.s.load(a.actor, id, created)
+	return a.s.load(ctx, a.actor, id, created)
 }
 func (a actorStore) LoadLatest(ctx context.Context, id string) (*appencryption.EnvelopeKeyRecord, error) {
-	return a.s.loadLatest(a.actor, id)
+	return a.s.loadLatest(ctx, a.actor, id)
 }
 func (a actorStore) Store(ctx context.Context, id string, created int64, e *appencryption.EnvelopeKeyRecord) (bool, error) {
-	return a.s.store(a.actor, id, created, e)
+	return a.s.store(ctx, a.actor, id, created, e)
 }
 func (a actorStore) GetRegionSuffix() string { return a.s.Suffix }
 
@@ -166,20 +192,20 @@ func (s *Store) For(actor string) appencryption.Metastore { return actorStore{s,
 
 // Load implements Metastore.
 func (s *Store) Load(ctx context.Context, id string, created int64) (*appencryption.EnvelopeKeyRecord, error) {
-	return s.load(s.Actor, id, created)
+	return s.load(ctx, s.Actor, id, created)
 }
 
 // LoadLatest implements Metastore.
 func (s *Store) LoadLatest(ctx context.Context, id string) (*appencryption.EnvelopeKeyRecord, error) {
-	return s.loadLatest(s.Actor, id)
+	return s.loadLatest(ctx, s.Actor, id)
 }
 
 // Store implements Metastore.
 func (s *Store) Store(ctx context.Context, id string, created int64, e *appencryption.EnvelopeKeyRecord) (bool, error) {
-	return s.store(s.Actor, id, created, e)
+	return s.store(ctx, s.Actor, id, created, e)
 }
 
-func (s *Store) load(actor, id string, created int64) (*appencryption.EnvelopeKeyRecord, error) {
+func (s *Store) load(ctx context.Context, actor, id string, created int64) (*appencryption.EnvelopeKeyRecord, error) {
 	if s.Gate != nil {
 		s.Gate(actor, "Load")
 	}
@@ -187,6 +213,15 @@ func (s *Store) load(actor, id string, created int64) (*appencryption.EnvelopeKe
 	if f == FaultError {
 		s.Log.end(idx, false, 0, ErrInjected)
 		return nil, ErrInjected
+	}
+	if s.Backing != nil {
+		rec, err := s.Backing.Metastore().Load(ctx, id, created)
+		if rec == nil || err != nil {
+			s.Log.end(idx, false, 0, err)
+			return rec, err
+		}
+		s.Log.end(idx, true, rec.Created, nil)
+		return rec, nil
 	}
 	s.mu.Lock()
 	r := s.rows[id][created]
@@ -199,7 +234,7 @@ func (s *Store) load(actor, id string, created int64) (*appencryption.EnvelopeKe
 	return r.Rec, nil
 }
 
-func (s *Store) loadLatest(actor, id string) (*appencryption.EnvelopeKeyRecord, error) {
+func (s *Store) loadLatest(ctx context.Context, actor, id string) (*appencryption.EnvelopeKeyRecord, error) {
 	if s.Gate != nil {
 		s.Gate(actor, "LoadLatest")
 	}
@@ -207,6 +242,15 @@ func (s *Store) loadLatest(actor, id string) (*appencryption.EnvelopeKeyRecord, 
 	if f == FaultError {
 		s.Log.end(idx, false, 0, ErrInjected)
 		return nil, ErrInjected
+	}
+	if s.Backing != nil {
+		rec, err := s.Backing.Metastore().LoadLatest(ctx, id)
+		if rec == nil || err != nil {
+			s.Log.end(idx, false, 0, err)
+			return rec, err
+		}
+		s.Log.end(idx, true, rec.Created, nil)
+		return rec, nil
 	}
 	s.mu.Lock()
 	r := s.latestLocked(id)
@@ -229,7 +273,7 @@ func (s *Store) latestLocked(id string) *Row {
 	return best
 }
 
-func (s *Store) store(actor, id string, created int64, e *appencryption.EnvelopeKeyRecord) (bool, error) {
+func (s *Store) store(ctx context.Context, actor, id string, created int64, e *appencryption.EnvelopeKeyRecord) (bool, error) {
 	if s.Gate != nil {
 		s.Gate(actor, "Store")
 	}
@@ -241,6 +285,25 @@ func (s *Store) store(actor, id string, created int64, e *appencryption.Envelope
 	case FaultDup:
 		s.Log.end(idx, false, 0, nil)
 		return false, nil
+	}
+	if s.Backing != nil {
+		shadow := cloneEKR(e)
+		ok, err := s.Backing.Metastore().Store(ctx, id, created, e)
+		if ok {
+			s.mu.Lock()
+			if _, exists := s.rows[id][created]; exists {
+				s.Overwritten = append(s.Overwritten, fmt.Sprintf("(%s,%d) by %s", id, created, actor))
+			} else {
+				s.insertLocked(actor, id, created, shadow)
+			}
+			s.mu.Unlock()
+		}
+		if f == FaultAfter {
+			s.Log.end(idx, ok, 0, ErrInjected)
+			return false, ErrInjected
+		}
+		s.Log.end(idx, ok, 0, err)
+		return ok, err
 	}
 	s.mu.Lock()
 	_, exists := s.rows[id][created]
@@ -273,6 +336,13 @@ func (s *Store) Insert(actor, id string, created int64, e *appencryption.Envelop
 	if _, ok := s.rows[id][created]; ok {
 		return false
 	}
+	if s.Backing != nil {
+		shadow := cloneEKR(e)
+		if ok, _ := s.Backing.Metastore().Store(context.Background(), id, created, e); !ok {
+			return false
+		}
+		e = shadow
+	}
 	s.insertLocked(actor, id, created, e)
 	return true
 }
@@ -293,6 +363,11 @@ func (s *Store) Revoke(id string, created int64) bool {
 	}
 	cp.EncryptedKey = append([]byte(nil), r.Rec.EncryptedKey...)
 	cp.Revoked = true
+	if s.Backing != nil {
+		if err := s.Backing.RevokeRow(id, created); err != nil {
+			panic("verif harness: out-of-band revocation failed: " + err.Error())
+		}
+	}
 	r.Rec = &cp
 	r.Snapshot = SnapshotEKR(&cp)
 	r.RevokedAt = verifhook.Now().UnixNano()
@@ -349,6 +424,29 @@ func (s *Store) IDs() []string {
 func (s *Store) CheckImmutable() string {
 	s.mu.Lock()
 	defer s.mu.Unlock()
+	if len(s.Overwritten) > 0 {
+		return fmt.Sprintf("the metastore acknowledged a Store of %s although that (id, created) was already stored: the existing record was replaced", s.Overwritten[0])
+	}
+	if s.Backing != nil {
+		raw, err := s.Backing.RawRows()
+		if err != nil {
+			return "the rows in the database are not in the documented shape: " + err.Error()
+		}
+		for _, r := range s.order {
+			cur, ok := raw[RefRowKey{ID: r.ID, Created: r.Created}]
+			if !ok {
+				return fmt.Sprintf("row (%s,%d) was removed from the database", r.ID, r.Created)
+			}
+			want := RefEKR{Created: r.Rec.Created, Key: r.Rec.EncryptedKey, Revoked: r.Rec.Revoked}
+			if r.Rec.ParentKeyMeta != nil {
+				want.Parent = &RefKeyMeta{KeyID: r.Rec.ParentKeyMeta.ID, Created: r.Rec.ParentKeyMeta.Created}
+			}
+			if cur.Created != want.Created || string(cur.Key) != string(want.Key) || cur.Revoked != want.Revoked || (cur.Parent == nil) != (want.Parent == nil) || (cur.Parent != nil && *cur.Parent != *want.Parent) {
+				return fmt.Sprintf("row (%s,%d) in the database differs from the record whose insert was acknowledged: was %s", r.ID, r.Created, r.Snapshot)
+			}
+		}
+		return ""
+	}
 	for _, r := range s.order {
 		if cur := s.rows[r.ID][r.Created]; cur != r {
 			return fmt.Sprintf("row (%s,%d) was replaced or removed", r.ID, r.Created)
@@ -400,4 +498,21 @@ func (s *Store) CopyRows() []*appencryption.EnvelopeKeyRecord {
 		res = append(res, &cp)
 	}
 	return res
+}
+
+// RefSnapshot returns the key table as the reference implementation sees it: the raw database
+// rows when a real metastore backs the store, the harness rows otherwise.
+func (s *Store) RefSnapshot() (RefSnapshot, error) {
+	if s.Backing != nil {
+		return s.Backing.RawRows()
+	}
+	snap := RefSnapshot{}
+	for _, r := range s.Rows() {
+		e := RefEKR{Created: r.Rec.Created, Key: append([]byte(nil), r.Rec.EncryptedKey...), Revoked: r.Rec.Revoked}
+		if r.Rec.ParentKeyMeta != nil {
+			e.Parent = &RefKeyMeta{KeyID: r.Rec.ParentKeyMeta.ID, Created: r.Rec.ParentKeyMeta.Created}
+		}
+		snap[RefRowKey{ID: r.ID, Created: r.Created}] = e
+	}
+	return snap, nil
 }
